@@ -32,9 +32,9 @@ def handleC13 : Handler := fun op j =>
     | none => throw "no value: clones without data"
     | some (.prior sh sc) => pure (Json.mkObj [
         ("branch", Json.str "prior"), ("shape", jRat sh), ("scale", jRat sc),
-        ("value", jRat (finish K g))])
+        ("value", jRat (finish g))])
     | some (.mix m) => pure (Json.mkObj [
-        ("branch", Json.str "mix"), ("mix", jMix m), ("value", jRat (finish K g))])
+        ("branch", Json.str "mix"), ("mix", jMix m), ("value", jRat (finish g))])
   | "conc_kn" => some do
     let (f, o) ← getTree j
     let hk ← match j.getObjValAs? Bool "outkey" with
